@@ -479,4 +479,24 @@ theorem C20_blame_inverse (p : String) (s : Schema) (a : Attr) (hasAttr : String
       (d.line = l ∨ d.line = a.line) :=
   inverse_blames p s a hasAttr d h
 
+open Resolve in
+/-- every diagnostic of a UNIQUE rule is on the rule's line and quotes the attribute or the qualifier written there; an ERROR among
+    them means the reference is ill formed -/
+theorem C20_blame_unique (p : String) (s : Schema) (e : Entity) (fuel : Nat) (u : UniqueItem) (d : Diag)
+    (h : d ∈ uniqueDiags p s e fuel u) :
+    d.line = u.line ∧
+    (d.args.head? = some (sArg u.attr) ∨ ∃ q, u.qual = some q ∧ d.args.head? = some (sArg q)) ∧
+    (isErrorCode d.code = true → ¬ UniqueWF s fuel e u) :=
+  unique_blames p s e fuel u d h
+
+open Resolve in
+/-- the diagnostics of a type declaration (CIRCULAR_REFERENCE, TYPE_IS_ENTITY, UNDEFINED_TYPE / NOT_A_TYPE) quote a name written in
+    it — the underlying type's core name, or a select item that denotes no type — and the declaration is ill formed -/
+theorem C20_blame_type_declaration (p : String) (env : Env) (s : Schema) (t : TypeDecl) (d : Diag)
+    (h : d ∈ typeDeclDiags p env s t) :
+    ¬ TypeDeclWF env s t ∧
+    ((∃ r, t.body = .ref r ∧ ∃ n l, r.coreName = some (n, l) ∧ d.args.head? = some (sArg n)) ∨
+     (∃ items, t.body = .select items ∧ ∃ x ∈ items, d.args.head? = some (sArg x.1) ∧ d.line = x.2 ∧ ¬ DenotesType env s x.1)) :=
+  typeDecl_blames p env s t d h
+
 end StepModel.Express.C20
